@@ -723,9 +723,19 @@ class ObjectMethod(DeserializationMethod):
             ]
             if field_errors or errors:
                 error = ValidationError(errors or [], field_errors or {})
-                invalid_fields = self.post_init_modified
-                if field_errors:
-                    invalid_fields = invalid_fields | field_errors.keys()
+                # validators dependencies are field names, whereas errors keys are aliases
+                invalid_fields = self.post_init_modified | {
+                    field.name
+                    for field in self.fields
+                    if field_errors and field.alias in field_errors
+                }
+                if self.aggregate_fields:
+                    aggregate_fields = [*self.flattened_fields, *self.pattern_fields]
+                    if self.additional_field is not None:
+                        aggregate_fields.append(self.additional_field)
+                    invalid_fields |= {
+                        field.name for field in aggregate_fields if field.name not in values
+                    }
                 try:
                     validate(
                         ValidatorMock(self.constructor.cls, values),
